@@ -68,17 +68,18 @@ def groups_disagree(make_top, ga, gb, state, cycles):
     cells = _cells(top); _plant(cells, state)
     tr = []
     try:
-      for cyc in cycles:
+      for t, cyc in enumerate(cycles):
         for n, v in cyc.items():
           if n in cells: cells[n]._uint = v
-        top.sim_eval_combinational(); tr.append({n: int(o._uint) for n, o in cells.items()})
+        if t % 2 == 0:
+          top.sim_eval_combinational(); tr.append({n: int(o._uint) for n, o in cells.items()})
         top.sim_tick(); tr.append({n: int(o._uint) for n, o in cells.items()})
     except Exception as e:
       tr.append({'__exception__': f"{type(e).__name__}: {e}"})
     runs.append(tr)
   for i, (x, y) in enumerate(zip(*runs)):
     d = sorted(n for n in x if x[n] != y.get(n))
-    if d: return f"pass groups {ga} and {gb} disagree at step {i} ({'eval' if i % 2 == 0 else 'tick'} of cycle {i // 2}) on {d[:5]}: {[(n, x[n], y.get(n)) for n in d[:3]]}"
+    if d: return f"pass groups {ga} and {gb} disagree at observation {i} on {d[:5]}: {[(n, x[n], y.get(n)) for n in d[:3]]}"
   return None
 
 
